@@ -120,8 +120,37 @@ def frames(c):
             except SystemExit as ex:
                 fails.append(["file-roundtrip-exit", "saving/loading a synthetic frame as .%s made blimpy exit (%r) for %s" % (ext, ex, c)])
         routes["slice"] = synth().get_slice(1, c["fchans"] - 1)
+        # further construction routes: start time given as an MJD, a blimpy Waterfall object, a pathlib path
+        fm = stg.Frame(fchans=c["fchans"], tchans=c["tchans"], df=c["df"], dt=c["dt"], fch1=c["fch1"], ascending=c["ascending"], seed=c["seed"], mjd=59000.5)
+        fm.add_noise(x_mean=10, noise_type="chi2")
+        routes["mjd"] = fm
+        if "loaded_fil" in routes:
+            import pathlib
+            from blimpy import Waterfall
+            routes["waterfall_object"] = stg.Frame(waterfall=Waterfall(os.path.join(d, "f.fil")), seed=7)
+            routes["pathlib"] = stg.Frame(waterfall=pathlib.Path(os.path.join(d, "f.fil")), seed=7)
+            for nm in ("waterfall_object", "pathlib"):
+                bad = frame_equal(routes["loaded_fil"], routes[nm])
+                if bad:
+                    fails.append(["route-differs", "a frame built from a %s differs from the one built from the file name in %s" % (nm.replace("_", " "), bad)])
+        # save_npy / load_npy carry the data
+        fa = synth(); fnp = os.path.join(d, "a.npy"); fa.save_npy(fnp)
+        fb = stg.Frame(fchans=c["fchans"], tchans=c["tchans"], df=c["df"], dt=c["dt"], fch1=c["fch1"], ascending=c["ascending"], seed=1, t_start=1e9)
+        fb.load_npy(fnp)
+        if not np.array_equal(fa.data, fb.data):
+            fails.append(["npy-roundtrip", "save_npy / load_npy does not carry the data over"])
+        # a pickled cadence comes back with equal, separate frames in the same order
+        cad = stg.Cadence([synth(), synth()], t_slew=10.0, t_overwrite=True)
+        fcp = os.path.join(d, "c.pickle"); cad.save_pickle(fcp)
+        cad2 = stg.Cadence.load_pickle(fcp)
+        if len(cad2) != len(cad) or any(frame_equal(a, b) for a, b in zip(cad, cad2)) or any(a is b for a, b in zip(cad, cad2)):
+            fails.append(["cadence-pickle", "Cadence.save_pickle / load_pickle: frames differ (%s)" % [frame_equal(a, b) for a, b in zip(cad, cad2)]])
+        else:
+            cad2[0].data[0, 0] += 1.0
+            if cad[0].data[0, 0] == cad2[0].data[0, 0]:
+                fails.append(["copy-not-isolated", "a frame of an unpickled cadence shares its data with the original"])
         for name, fr in routes.items():
-            for how in ("copy", "pickle"):
+            for how in ("copy", "pickle", "pickle_file"):
                 wf0 = fr.waterfall
                 hdr0 = None if wf0 is None else dict(wf0.header)
                 try:
@@ -130,7 +159,12 @@ def frames(c):
                     if wf0 is not None and (fr.waterfall is not wf0 or not same_header(fr.waterfall.header, hdr0)):
                         fails.append(["copy-changes-original", "pickling a %s frame %s" % (name, "detached its Waterfall" if fr.waterfall is None else "changed its Waterfall / header")])
                         fr.waterfall = wf0
-                    cp = fr.copy() if how == "copy" else pickle.loads(pickle.dumps(fr))
+                    if how == "pickle_file":
+                        fpk = os.path.join(d, "fr.pickle")
+                        fr.save_pickle(fpk)
+                        cp = stg.Frame.load_pickle(fpk)
+                    else:
+                        cp = fr.copy() if how == "copy" else pickle.loads(pickle.dumps(fr))
                     if wf0 is not None and (fr.waterfall is not wf0 or not same_header(fr.waterfall.header, hdr0)):
                         fails.append(["copy-changes-original", "%s of a %s frame %s" % (how, name, "detached the original's Waterfall" if fr.waterfall is None else "changed the original's Waterfall / header")])
                         fr.waterfall = wf0
@@ -155,7 +189,7 @@ def frames(c):
                 bad = frame_equal(fr, snap)
                 if bad:
                     fails.append(["copy-not-isolated", "mutating the %s of a %s frame changed the original's %s" % (how, name, bad)])
-                cp2 = fr.copy() if how == "copy" else pickle.loads(pickle.dumps(fr))
+                cp2 = fr.copy() if how == "copy" else pickle.loads(pickle.dumps(fr))      # (the file variant goes through the same __getstate__)
                 snap2 = pickle.loads(pickle.dumps(cp2))
                 fr.data[0, 0] += 1000.0; fr.add_noise(x_mean=3, noise_type="chi2"); fr.metadata.setdefault("tag", []).append(7)
                 bad = frame_equal(cp2, snap2)
